@@ -309,6 +309,10 @@ def run(ctx):
                  "; ".join(diffs[:2]) + " - the settings of a project must live next to its workflow file", "src/gwf/cli.py:1")
     else:
         r2.info("src/gwf/cli.py::main::config-location", f"not evaluated ({unsup}); C19.R2 decides the location structurally")
+    # ... and "the workflow file" is the file the user points at (found by the upward search or given with -f), also when that file is a symbolic link
+    from .evalhelpers import cached_witness, report_witness, find_workflow_witness
+    report_witness(r2, "src/gwf/utils.py::find_workflow::location", "src/gwf/utils.py:1", cached_witness(ctx, "find-workflow", find_workflow_witness),
+                   "the workflow file's location is the path the user points at: upward search, -f, '..', symbolic links (file and directory) are not followed")
     r3 = ctx.rule("R3", "precedence flag > project configuration > default for backend, colour and verbosity; every documented setting is read", min_instances=6)
     rule_precedence(ctx, r3)
     r4 = ctx.rule("R4", "the selected backend, and only it, receives its backend.<name>.* settings and uses them", min_instances=8)
